@@ -1,5 +1,6 @@
 """C05 — BGP: each peer is offered exactly the intended routes (Model/BgpAds.v)."""
 import json
+import vlib
 
 CLOSURE = ["Model/BgpAds.v", "Proofs/BgpAdsP.v", "Proofs/BgpAdsPrefix.v"]
 
@@ -33,7 +34,7 @@ def run(ctx):
         for k in ("op_set", "op_del_announced", "op_cfg", "op_node", "oracle_nonempty_route_sets", "services_with_peers",
                   "sessions_closed_by_node", "sessions_closed_by_cfg", "final_prefix_shared_by_services", "unchanged_peer_kept_checks"):
             if st.get(k, 0) == 0:
-                raise Exception("generator degenerate: counter %r is zero: %r" % (k, st))
+                raise vlib.Broken("generator degenerate: counter %r is zero: %r" % (k, st))
 
     def search():
         for k in range(4):
